@@ -193,6 +193,14 @@ REQUESTS = [
     (b"titan://example.org/private/up.txt;size=5;mime=text/plain;token=t/../../..\r\nhello", "titan-private-dotted-token", True),
     (b"titan://example.org/private/up.txt;size=5;mime=x/../../../..\r\nhello", "titan-private-dotted-mime", True),
     (b"titan://example.org/public/../private/up.txt;size=5\r\nhello", "titan-private-via-dotdot", True),
+    # spellings of the protected location that a path-based component has to see through (escapes that are not
+    # UTF-8 inside a segment that '..' removes, encoded letters, doubled and leading slashes, look-alike dots)
+    (b"gemini://example.org/private/%ff/../doc.gmi\r\n", "gemini-private-bad-escape-detour", True),
+    (b"gemini://example.org/private/%C3/../doc.gmi\r\n", "gemini-private-truncated-escape-detour", True),
+    (b"gemini://example.org/%70rivate/doc.gmi\r\n", "gemini-private-encoded-letter", True),
+    (b"gemini://example.org//private//doc.gmi\r\n", "gemini-private-double-slash", True),
+    (b"gemini://example.org/x/%2e%2e/private/doc.gmi\r\n", "gemini-private-encoded-dotdot", True),
+    (b"titan://example.org/private/%fe%ff/../up.txt;size=5;mime=text/plain\r\nhello", "titan-private-bad-escape-detour", True),
     (b"http://example.org/\r\n", "invalid-scheme", False),
     (b"titan://example.org/up.txt;size=x\r\nhello", "titan-invalid", False),
 ]
